@@ -479,14 +479,16 @@ def run(tier, seed, workers):
     st = core.parallel(_work_product, (tier, seed), workers, nparts=workers * 4)
     st.bounds['product_forests'] = sum(1 for _ in product_cases(tier))
     st.bounds['product_fires'] = st.executions
-    n, depth = (3, 6) if tier == 'quick' else (4, 7)
-    model = HistModel(n)
-    hs = e1_history.bfs(model, depth, workers, seed)
-    hs.bounds = {'history_' + k: v for k, v in hs.bounds.items()}
-    hs.bounds['history_pool'] = n
-    st.merge(hs)
-    st.states = hs.states
-    st.transitions = hs.transitions
+    plan = [(3, 6)] if tier == 'quick' else [(3, 8), (4, 5)]
+    states = transitions = 0
+    for n, depth in plan:
+        hs = e1_history.bfs(HistModel(n), depth, workers, seed, max_states=400000)
+        hs.bounds = {'history_pool%d_%s' % (n, k): v for k, v in hs.bounds.items()}
+        states += hs.states
+        transitions += hs.transitions
+        st.merge(hs)
+    st.states = states
+    st.transitions = transitions
     if not st.counters['states_reached_with_structural_change_while_a_cache_was_warm']:
         st.selfcheck_errors.append('vacuity: no history changed the structure while a cache was warm')
     if not st.counters['product_cases_selective']:
